@@ -170,8 +170,29 @@ def r14b(model, ctx):
               "constant and return without appending a statement", f"{W}:{f.lineno}")
     fc = model.func(f"{W}::connect")
     t = unparse(fc)
-    ok = "if member.flow == Out:\n                    out_kind.append(((handle, *path_for_handle), member))" in t and \
-        "if member.flow == In:\n                    in_kind.append(((handle, *path_for_handle), member))" in t
+    # by governing conditions: out_kind.append(X) under (is a port, flow == Out), in_kind.append(X) under (is a port, flow == In),
+    # X the same (path, member) pair — as two ifs, if/elif, if/else or conjunctions
+    modw = model.mod(W)
+
+    def governing(node):
+        out, q, child = [], modw.parent(node), node
+        while q is not None and q is not fc:
+            if isinstance(q, ast.If):
+                pol = any(child is b for b in q.body)
+                tests = q.test.values if isinstance(q.test, ast.BoolOp) and isinstance(q.test.op, ast.And) and pol else [q.test]
+                out += [(unparse(x), pol) for x in tests]
+            q, child = modw.parent(q), q
+        return set(out)
+    ok = True
+    for lst, flow, other in (("out_kind", "Out", "In"), ("in_kind", "In", "Out")):
+        apps = [n for n in ast.walk(fc) if isinstance(n, ast.Call) and unparse(n.func) == f"{lst}.append"]
+        need(len(apps) >= 1, f"connect: {lst}.append not found")
+        for a_ in apps:
+            stmt = modw.parent(a_)
+            g = governing(stmt)
+            ok = ok and len(apps) == 1 and len(a_.args) == 1 and unparse(a_.args[0]) == "((handle, *path_for_handle), member)" and \
+                ((f"member.flow == {flow}", True) in g or (f"member.flow == {other}", False) in g or (f"member.flow != {other}", True) in g) and \
+                (("member.is_port", True) in g or ("member.is_signature", False) in g)
     ctx.check(ok, R, "connect:classification", "out_kind filled under flow == Out, in_kind under flow == In",
               "members must be classified as outputs exactly when member.flow == Out and as inputs when member.flow == In", f"{W}:{fc.lineno}")
     adds = [n for n in walk_no_nested(fc) if isinstance(n, ast.AugAssign) and "connections" in unparse(n.value)]
